@@ -37,10 +37,17 @@ func (e *Exec) vndInt(base string, w int, signed bool) *Term {
 	return e.vndVar(base, BV(w))
 }
 
+// vndBytes: n bytes of which the first four and the last are symbolic and the
+// rest zero (hash-like values are only compared and copied by the code under
+// test; the bound is stated in the evidence).
 func (e *Exec) vndBytes(base string, n int) ArrayV {
 	out := make(ArrayV, n)
 	name := e.vndName(base)
 	for i := 0; i < n; i++ {
+		if i >= 4 && i != n-1 && !e.opts.FullBytes {
+			out[i] = e.ctx.BVConst(8, 0)
+			continue
+		}
 		bn := fmt.Sprintf("%s[%d]", name, i)
 		v := e.ctx.Var(bn, BV(8))
 		if _, ok := e.vndVars[bn]; !ok {
@@ -105,6 +112,7 @@ func (e *Exec) vndCall(th *Thread, fn *ssa.Function, a []Value) Value {
 		if t.IsFalse() {
 			panic(pathAbort{"infeasible", "assume false"})
 		}
+		e.flushAsserts()
 		e.assumeFeasible(t, "assume")
 		return nil
 	case "Assert":
@@ -165,6 +173,16 @@ func (e *Exec) vndCall(th *Thread, fn *ssa.Function, a []Value) Value {
 			return c.BVConstU(64, h)
 		}
 		return c.App(fmt.Sprintf("h64_%s_%d", str(0), len(ts)), BV(64), ts...)
+	case "And":
+		return c.And(a[0].(*Term), a[1].(*Term))
+	case "Or":
+		return c.Or(a[0].(*Term), a[1].(*Term))
+	case "Implies":
+		return c.Implies(a[0].(*Term), a[1].(*Term))
+	case "Not":
+		return c.Not(a[0].(*Term))
+	case "IteU64":
+		return c.Ite(a[0].(*Term), a[1].(*Term), a[2].(*Term))
 	case "Fail":
 		e.assertProp(th, c.False, str(0))
 		return nil
@@ -207,23 +225,60 @@ func (e *Exec) model() map[string]string {
 	return out
 }
 
+// assertProp records an obligation. Obligations are discharged in batches
+// (flushAsserts): one query PC ∧ ¬(c1 ∧ … ∧ cn) per batch; asserted
+// conditions are NOT added to the path condition, so every input violating an
+// assertion still follows an explored path and is found at that path's flush.
 func (e *Exec) assertProp(th *Thread, cond *Term, label string) {
 	e.assertsTotal++
 	if cond.IsTrue() {
 		e.asserts[label]++
 		return
 	}
-	v := e.feasible(e.ctx.Not(cond))
-	switch v {
-	case Unsat:
-		e.asserts[label]++
-		e.assume(cond)
-	case Sat:
-		m := e.model()
-		panic(pathAbort{"violation", ""}.with(&Violation{Kind: "assert", Label: label, Msg: "assertion " + label + " can fail: " + clip(cond.String(), 300), Model: m, Prefix: append([]int(nil), e.decisions...), Stack: e.stack(th)}))
-	default:
-		e.inconclusive = append(e.inconclusive, "assert "+label+": solver "+v.String()+" "+e.solver.lastErr)
-		e.assume(cond)
+	e.pending = append(e.pending, pendingAssert{cond: cond, label: label, stack: e.stack(th)})
+	if cond.IsFalse() || len(e.pending) >= 64 {
+		e.flushAsserts()
+	}
+}
+
+type pendingAssert struct {
+	cond  *Term
+	label string
+	stack []string
+}
+
+func (e *Exec) flushAsserts() {
+	if len(e.pending) == 0 {
+		return
+	}
+	pend := e.pending
+	e.pending = nil
+	all := e.ctx.True
+	for _, p := range pend {
+		all = e.ctx.And(all, p.cond)
+	}
+	v := e.feasible(e.ctx.Not(all))
+	if v == Unsat {
+		for _, p := range pend {
+			e.asserts[p.label]++
+		}
+		return
+	}
+	// locate the failing obligation
+	for _, p := range pend {
+		pv := e.feasible(e.ctx.Not(p.cond))
+		switch pv {
+		case Unsat:
+			e.asserts[p.label]++
+		case Sat:
+			m := e.model()
+			panic(pathAbort{"violation", ""}.with(&Violation{Kind: "assert", Label: p.label, Msg: "assertion " + p.label + " can fail: " + clip(p.cond.String(), 300), Model: m, Prefix: append([]int(nil), e.decisions...), Stack: p.stack}))
+		default:
+			e.inconclusive = append(e.inconclusive, "assert "+p.label+": solver "+pv.String()+" "+e.solver.lastErr)
+		}
+	}
+	if v == Unknown {
+		e.inconclusive = append(e.inconclusive, "assert batch: solver unknown "+e.solver.lastErr)
 	}
 }
 
